@@ -45,7 +45,12 @@ harness never keeps child handles, every step goes through `labels()`, so the ne
 value objects on the SAME keys (a second `C` with identical params in the value-level log).  Expectation from the
 property text: remove/clear touch no file, the re-created child CONTINUES from what the current identity's file holds,
 so (a)-(d) apply unchanged and the oracle's bookkeeping is not reset (a removed child that is never re-created still
-contributes its old value); the dropped value objects may be stale and are excluded from (d).  Harness invariant,
+contributes its old value); the dropped value objects may be stale and are excluded from (d).
+
+FALSY identities: the identity pool contains 0 (and the empty string, which the clean library accepts end to end: files
+`counter_.db`, pid label '') — as the initial identity, as the target of a change, as the identity returned to, as a
+reused pid of a new worker and as the argument of mark_process_dead; the systematic families are re-run with 10 or 11
+renamed to 0 / '' (`rename_ids`).  Harness invariant,
 reported as C09:dropped-child-used: after a remove/clear no logged inc/set/get refers to a dropped value object.
 """
 import hashlib
@@ -316,6 +321,11 @@ def run_history(scen, want_sample=False):
     world = mpsim.ValueLog()
     oracle = Oracle(pool)
     variant = scen.get('variant', 0)
+    ids_used = {scen['pid0']} | {st[1] for st in scen['steps'] if st[0] in ('pid', 'W', 'D')}
+    if 0 in ids_used:
+        res.count('identity:0')
+    if '' in ids_used:
+        res.count('identity:empty-string')
     with mpsim.Sim() as sim:
         world.after = lambda at: res.snaps.__setitem__(at, mpsim.snapshot(sim.dir))
         w = Worker(sim, pool, scen['pid0'], world, variant)
@@ -527,6 +537,26 @@ def bases():
     return out
 
 
+def rename_ids(scen, mapping):
+    """the same history with identities renamed (e.g. 11 -> 0): in pid0 and in every pid / W / D step"""
+    if not mapping:
+        return scen
+    steps = [[st[0], mapping.get(st[1], st[1])] if st[0] in ('pid', 'W', 'D') else st for st in scen['steps']]
+    return dict(scen, pid0=mapping.get(scen['pid0'], scen['pid0']), steps=steps)
+
+
+def pick_ids(rng, n):
+    """n distinct identities; 0 in about 40 % of the histories, the empty string in about 10 %"""
+    pids = rng.sample(c08.PID_POOL, n)
+    if rng.random() < 0.4:
+        pids[rng.randrange(n)] = 0
+    if rng.random() < 0.1:
+        j = rng.randrange(n)
+        if pids[j] != 0 or n == 1:
+            pids[j] = ''
+    return pids
+
+
 def insertions(steps, pid0, a, b):
     n = len(steps)
     yield list(steps)
@@ -545,7 +575,7 @@ def gen_history(rng, all_modes, long=False):
     for md in pool:
         if md['kind'] == 'histogram' and md['layout'] == 'default' and rng.random() < 0.7:
             md['layout'] = rng.choice(['small', 'dec', 'big', 'neg'])
-    pids = rng.sample(c08.PID_POOL, rng.choice([2, 2, 3, 4]))
+    pids = pick_ids(rng, rng.choice([2, 2, 3, 4]))
     cands = []
     for md in pool:
         k = len(md['labels'])
@@ -632,7 +662,7 @@ def gen_world(rng, all_modes, long=False):
     for md in pool:
         if md['kind'] == 'histogram' and md['layout'] == 'default' and rng.random() < 0.8:
             md['layout'] = rng.choice(['small', 'dec', 'big', 'neg'])
-    pids = rng.sample(c08.PID_POOL, rng.choice([2, 3, 3, 4]))
+    pids = pick_ids(rng, rng.choice([2, 3, 3, 4]))
     cands = []
     for md in pool:
         k = len(md['labels'])
@@ -982,7 +1012,9 @@ def run(ctx):
                 'worker generations with identity changes inside and deaths between and inside them; one case = one history, '
 'family "relabel": 3 base scripts on labelled metrics with remove()/clear() of the next child at every position and '
                 'an identity change / new worker / death at every place relative to it, plus remove/clear sprinkled into all random '
-                'histories; observed after every step; non-trivial when it contains an identity change, a new worker or a death; '
+                'histories; the falsy identities 0 and "" occur as initial identity, change target, identity returned to, reused pid '
+                'and dead pid (systematic families re-run with 10/11 renamed, ~40 % / ~10 % of the random ones); '
+                'observed after every step; non-trivial when it contains an identity change, a new worker or a death; '
                 'distinct by value-level log + final collection')
     quick = ctx.tier == 'quick'
     budget = 52.0 if quick else 480.0
@@ -998,19 +1030,26 @@ def run(ctx):
     probe_two_live_values(ctx)
     batch = []
     samples = 3
-    for pool, steps in bases():
+    for bi, (pool, steps) in enumerate(bases()):
+        rename = [{11: 0}, {10: 0}, {}][bi % 3]     # change to 0 and on to a third / initial identity 0 and back to it / none
         for k, ins in enumerate(insertions(steps, 10, 11, 12)):
-            scen = {'pool': pool, 'pid0': 10, 'steps': ins, 'variant': 0}
+            scen = rename_ids({'pool': pool, 'pid0': 10, 'steps': ins, 'variant': 0}, rename)
             want = samples > 0 and k == 20
             samples -= 1 if want else 0
             batch.append((scen, run_history(scen, want)))
             ctx.count('histories:systematic')
             if len(batch) >= 60:
                 flush(ctx, rep, batch)
+        if bi in (0, 3, 5):     # the single-change placements again with the empty string as an identity
+            for m in ({11: ''}, {10: ''}, {10: 0, 11: ''}):
+                for ins in list(insertions(steps, 10, 11, 12))[1:len(steps) + 2]:
+                    scen = rename_ids({'pool': pool, 'pid0': 10, 'steps': ins, 'variant': 0}, m)
+                    batch.append((scen, run_history(scen)))
+                    ctx.count('histories:systematic')
     flush(ctx, rep, batch)
-    for pool, steps in world_bases():
+    for bi, (pool, steps) in enumerate(world_bases()):
         for k, ins in enumerate(world_insertions(steps)):
-            scen = {'pool': pool, 'pid0': 10, 'steps': ins, 'variant': 0}
+            scen = rename_ids({'pool': pool, 'pid0': 10, 'steps': ins, 'variant': 0}, [{}, {10: 0}, {11: 0}, {10: ''}][bi % 4])
             batch.append((scen, run_history(scen, k == 14 and len(ctx.samples) < 5)))
             ctx.count('histories:generations-systematic')
             if len(batch) >= 60:
@@ -1021,9 +1060,9 @@ def run(ctx):
         ['pid', 10], ['inc', 0, ['x'], B(8.0)]]}      # collects 15
     batch.append((fifteen, run_history(fifteen)))
     ctx.count('histories:relabel-systematic')
-    for pool, steps in relabel_bases():
+    for bi, (pool, steps) in enumerate(relabel_bases()):
         for k, ins in enumerate(relabel_insertions(steps)):
-            scen = {'pool': pool, 'pid0': 10, 'steps': ins, 'variant': 0}
+            scen = rename_ids({'pool': pool, 'pid0': 10, 'steps': ins, 'variant': 0}, [{}, {10: 0}, {11: 0}][bi % 3])
             batch.append((scen, run_history(scen, k == 33 and len(ctx.samples) < 6)))
             ctx.count('histories:relabel-systematic')
             if len(batch) >= 60:
